@@ -146,6 +146,13 @@ var llldpDesc = &lmDesc{
 				_ = gopacket.LayerDump(in)
 				_ = gopacket.LayerGoString(in)
 				_, _ = in.MgmtAddress.Subtype.String(), in.MgmtAddress.InterfaceSubtype.String()
+				// the typed decoders of the organisation-specific TLVs (not modelled: exercised for panics only)
+				_, _ = in.Decode8021()
+				_, _ = in.Decode8023()
+				_, _ = in.Decode8021Qbg()
+				_, _ = in.DecodeMedia()
+				_, _ = in.DecodeCisco2()
+				_, _ = in.DecodeProfinet()
 			}
 		}}
 	},
@@ -346,6 +353,54 @@ func (llldp) Gen(rng *rand.Rand, tier string) []Case {
 	for _, t := range []int{7, 127} { // capabilities and organisation-specific values of every short length
 		for k := 0; k <= 6; k++ {
 			full("consistent-length-cut", cat(ch, po, tt, llTLV(t, []byte{0, 0x80, 0xc2, 3, 0, 5, 1}[:k], -1), end))
+		}
+	}
+	// (5b) organisation-specific TLVs of every OUI/subtype the typed decoders know, with Info of every length 0..n (consistent cuts), as the
+	//      last TLV before End and followed by a long TLV; protocol-identity and location sub-lengths forced
+	type orgT struct {
+		oui []byte
+		sub int
+		n   int
+	}
+	var orgs []orgT
+	for sub := 1; sub <= 7; sub++ {
+		orgs = append(orgs, orgT{[]byte{0, 0x80, 0xc2}, sub, 8})
+	}
+	for sub := 1; sub <= 4; sub++ {
+		orgs = append(orgs, orgT{[]byte{0, 0x12, 0x0f}, sub, 9})
+	}
+	orgs = append(orgs, orgT{[]byte{0, 0x13, 0xbf}, 0, 10}, orgT{[]byte{0, 1, 0x42}, 1, 2})
+	for sub := 1; sub <= 11; sub++ {
+		orgs = append(orgs, orgT{[]byte{0, 0x12, 0xbb}, sub, 6})
+	}
+	for _, sub := range []int{1, 2, 4, 5, 6} {
+		orgs = append(orgs, orgT{[]byte{0, 0x0e, 0xcf}, sub, 55})
+	}
+	for _, o := range orgs {
+		for k := 0; k <= o.n; k++ {
+			if k > 22 && k < o.n-3 {
+				continue
+			}
+			inf := lnRandBytes(rng, k)
+			x := llTLV(127, append(append(lnCopy(o.oui), byte(o.sub)), inf...), -1)
+			add("org-info-length", "dec:"+hx(cat(ch, po, tt, x, end)))
+			add("org-info-length", "dec:"+hx(cat(ch, po, tt, x, llTLV(6, lnRandBytes(rng, 300), -1), end)))
+		}
+	}
+	for _, l := range []int{0, 1, 2, 3, 4, 200, 255} { // 802.1 protocol identity: length octet against the octets present
+		for _, have := range []int{0, 1, 3} {
+			x := llTLV(127, append([]byte{0, 0x80, 0xc2, 4, byte(l)}, lnRandBytes(rng, have)...), -1)
+			add("org-info-length", "dec:"+hx(cat(ch, po, tt, x, end)))
+		}
+	}
+	for _, f := range []int{0, 1, 2, 3, 4} { // MED location: format x octets present; civic address lines with lengths 0, exact, beyond
+		for k := 0; k <= 18; k++ {
+			x := llTLV(127, append([]byte{0, 0x12, 0xbb, 3, byte(f)}, lnRandBytes(rng, k)...), -1)
+			add("org-info-length", "dec:"+hx(cat(ch, po, tt, x, end)))
+		}
+		for _, al := range []int{0, 1, 2, 3, 200} {
+			x := llTLV(127, append([]byte{0, 0x12, 0xbb, 3, 2, 9, 1, 'D', 'E', 1, byte(al)}, []byte("ab")...), -1)
+			add("org-info-length", "dec:"+hx(cat(ch, po, tt, x, end)))
 		}
 	}
 	// (6) field-built layers
